@@ -277,3 +277,35 @@ def session_kwargs(p):
         else:
             out["**"] = v
     return out
+
+
+def data_stream_sites(p):
+    """[(verb, handler, store stmt, ctor call, how)] for every assignment of the session's data-connection field inside the passive handlers:
+    the stream constructor call is either written in place, or found as the returned constructor of a helper method of the control stream
+    (`<session>.command_connection.<helper>(reader, writer)`); how is 'direct' or ('via', helper function node)"""
+    field = field_names(p).get("data_connection_made", "data_connection")
+    out = []
+    for verb, name, h in p.handlers():
+        for st, tgt in attr_stores(h, field):
+            if not isinstance(st, ast.Assign):
+                continue
+            v = st.value
+            if isinstance(v, ast.Call) and last_attr(v.func) in ("ThrottleStreamIO", "StreamIO"):
+                out.append((verb, h, st, v, "direct"))
+            elif isinstance(v, ast.Call) and isinstance(v.func, ast.Attribute) and last_attr(v.func.value) == "command_connection":
+                helper = None
+                for cls in ("ThrottleStreamIO", "StreamIO"):
+                    if cls in p.classes and v.func.attr in p.methods(cls):
+                        helper = p.methods(cls)[v.func.attr]
+                        break
+                ctor = None
+                if helper is not None:
+                    for r in walk_no_nested(helper):
+                        if isinstance(r, ast.Return) and isinstance(r.value, ast.Call):
+                            fs = src(r.value.func)
+                            if fs in ("self.__class__", "type(self)", "ThrottleStreamIO", "StreamIO", "cls"):
+                                ctor = r.value
+                out.append((verb, h, st, ctor, ("via", helper)))
+            else:
+                out.append((verb, h, st, None, "unknown"))
+    return out
